@@ -91,10 +91,11 @@ PROFILES = {
                  leaves=['i32', 'ai', 'st'], operands=['i32', 'i64', 'py_f'], arith=['add', 'div'], cmps=['lt'],
                  lambdas=['half', 'wrap'], preds=['lt'], casts=['int64'],
                  table_ops=['annotate', 'select', 'key_by', 'filter', 'annotate_globals', 'stop'],
-                 row_exprs=['flt', 'big', 'st', 'cmp'],
-                 matrix_ops=['annotate_rows', 'annotate_cols', 'annotate_entries', 'annotate_globals', 'select_entries',
+                 row_exprs=['big', 'st', 'cmp'],
+                 matrix_ops=['annotate_rows', 'annotate_entries', 'annotate_globals', 'select_entries',
                              'key_rows_by', 'filter_entries', 'stop'],
-                 mexprs=['rbig', 'c1', 'est']),
+                 mexprs=['rbig', 'est'], names=['x', 'y', 'e', 'g'], gexprs=['py_l'], ns=[3], fieldidx=[-1],
+                 hows=['field', 'expr']),
 }
 PF = {}
 
@@ -231,7 +232,7 @@ def apply_op(op, e, choose):
     if op == 'rename':
         return e.rename({list(e.dtype)[0]: 'zz'})
     if op == 'getfield':
-        return getattr(e, list(e.dtype)[choose('fieldidx', [0, -1])])
+        return getattr(e, list(e.dtype)[choose('fieldidx', _f('fieldidx', [0, -1]))])
     if op == 'getitem':
         return e[list(e.dtype)[-1]]
     if op == 'tindex':
@@ -359,16 +360,16 @@ def apply_table_op(op, t, choose):
     rx = row_exprs(t)
     names = list(t.row)
     if op == 'annotate':
-        nm = choose('name', ['x', names[-1]])
+        nm = choose('name', _f('names', ['x', names[-1]]))
         return t.annotate(**{nm: rx[choose('expr', _f('row_exprs', rx))]()})
     if op == 'annotate2':
         return t.annotate(u=rx[choose('expr', _f('row_exprs', rx))](), v=rx[choose('expr2', ['flt', 'str', 'lit'])]())
     if op == 'select':
-        return t.select(names[choose('fieldidx', [0, -1])])
+        return t.select(names[choose('fieldidx', _f('fieldidx', [0, -1]))])
     if op == 'select_expr':
         return t.select(w=rx[choose('expr', _f('row_exprs', rx))]())
     if op == 'key_by':
-        return t.key_by(names[choose('fieldidx', [0, -1])])
+        return t.key_by(names[choose('fieldidx', _f('fieldidx', [0, -1]))])
     if op == 'key_by_expr':
         return t.key_by(k=rx[choose('expr', ['idx1', 'big', 'str', 'st', 'flt'])]())
     if op == 'key_by_none':
@@ -376,10 +377,10 @@ def apply_table_op(op, t, choose):
     if op == 'filter':
         return t.filter(rx[choose('expr', ['cmp', 'idx1', 'str'])]())
     if op == 'drop':
-        return t.drop(names[choose('fieldidx', [0, -1])])
+        return t.drop(names[choose('fieldidx', _f('fieldidx', [0, -1]))])
     if op == 'annotate_globals':
-        g = choose('gexpr', ['py_i', 'py_l', 'ai', 'st', 'f64'])
-        return t.annotate_globals(**{choose('gname', ['g', 'h']): leaf(g)})
+        g = choose('gexpr', _f('gexprs', ['py_i', 'py_l', 'ai', 'st', 'f64']))
+        return t.annotate_globals(**{choose('gname', _f('names', ['g', 'h'])): leaf(g)})
     if op == 'select_globals':
         return t.select_globals()
     if op == 'transmute':
@@ -403,7 +404,7 @@ def apply_table_op(op, t, choose):
 
 def run_table_program(choose, k, text_check=None):
     trace = []
-    t = hl.utils.range_table(choose('n', [0, 3]))
+    t = hl.utils.range_table(choose('n', _f('ns', [0, 3])))
     trace.append(('range_table', (), str(t.row.dtype)))
     check_table(t, text_check)
     for step in range(k):
@@ -449,15 +450,15 @@ def mexprs(mt, axis):
 def apply_matrix_op(op, mt, choose):
     if op == 'annotate_rows':
         ex = mexprs(mt, 'row')
-        return mt.annotate_rows(**{choose('name', ['x', list(mt.row)[-1]]): ex[choose('expr', _f('mexprs', ex))]()})
+        return mt.annotate_rows(**{choose('name', _f('names', ['x', list(mt.row)[-1]])): ex[choose('expr', _f('mexprs', ex))]()})
     if op == 'annotate_cols':
         ex = mexprs(mt, 'col')
-        return mt.annotate_cols(**{choose('name', ['y', list(mt.col)[-1]]): ex[choose('expr', _f('mexprs', ex))]()})
+        return mt.annotate_cols(**{choose('name', _f('names', ['y', list(mt.col)[-1]])): ex[choose('expr', _f('mexprs', ex))]()})
     if op == 'annotate_entries':
         ex = mexprs(mt, 'entry')
-        return mt.annotate_entries(**{choose('name', ['e', 'f']): ex[choose('expr', _f('mexprs', ex))]()})
+        return mt.annotate_entries(**{choose('name', _f('names', ['e', 'f'])): ex[choose('expr', _f('mexprs', ex))]()})
     if op == 'annotate_globals':
-        return mt.annotate_globals(g=leaf(choose('gexpr', ['py_i', 'py_l', 'ai', 'st'])))
+        return mt.annotate_globals(g=leaf(choose('gexpr', _f('gexprs', ['py_i', 'py_l', 'ai', 'st']))))
     if op == 'select_rows':
         return mt.select_rows(list(mt.row)[-1])
     if op == 'select_cols':
@@ -466,14 +467,14 @@ def apply_matrix_op(op, mt, choose):
         ex = mexprs(mt, 'entry')
         return mt.select_entries(z=ex[choose('expr', _f('mexprs', ex))]())
     if op == 'key_rows_by':
-        which = choose('how', ['field', 'expr', 'none'])
+        which = choose('how', _f('hows', ['field', 'expr', 'none']))
         if which == 'field':
             return mt.key_rows_by(list(mt.row)[-1])
         if which == 'none':
             return mt.key_rows_by()
         return mt.key_rows_by(k=mexprs(mt, 'row')[choose('expr', ['rbig', 'rstr'])]())
     if op == 'key_cols_by':
-        which = choose('how', ['field', 'expr', 'none'])
+        which = choose('how', _f('hows', ['field', 'expr', 'none']))
         if which == 'field':
             return mt.key_cols_by(list(mt.col)[-1])
         if which == 'none':
@@ -487,7 +488,7 @@ def apply_matrix_op(op, mt, choose):
         return mt.filter_entries(mt[list(mt.row)[0]] == mt[list(mt.col)[0]])
     if op == 'drop':
         pool = list(mt.row) + list(mt.col) + list(mt.entry) + list(mt.globals)
-        return mt.drop(pool[choose('fieldidx', [0, -1, 1])])
+        return mt.drop(pool[choose('fieldidx', _f('fieldidx', [0, -1, 1]))])
     if op == 'transmute_entries':
         ex = mexprs(mt, 'entry')
         return mt.transmute_entries(t=ex[choose('expr', _f('mexprs', ex))]())
